@@ -138,8 +138,8 @@ def run_harness(pid, tier, seed, extra_env=None, race=False):
     env = dict(GOENV, VERIF_SEED=str(seed), VERIF_TIER=tier, VERIF_OUT=WORK)
     if extra_env:
         env.update(extra_env)
-    shutil.copyfile("/repo/go.sum", os.path.join(HARNESS, "go.sum"))
-    cmd = ["go", "test", "-tags", "verif", "-run", "^Test%s$" % pid, "-count=1", "-timeout", "100m", "."]
+    shutil.copyfile(os.path.join(os.environ.get("VERIF_ALT_REPO") or "/repo", "go.sum"), os.path.join(HARNESS, "go.sum"))
+    cmd = ["go", "test", "-tags", "verif", "-run", "^Test%s$" % pid, "-count=1", "-timeout", os.environ.get("VERIF_HARNESS_TIMEOUT", "100m"), "."]
     if race:
         env["CGO_ENABLED"] = "1"
         cmd.insert(2, "-race")
@@ -225,18 +225,37 @@ def main():
     t0 = time.time()
     rule = props_rules.RULES[pid]
     chk = None
+    alt = os.environ.get("VERIF_ALT_REPO")
+    if alt:
+        # tooling aid (tools/mutants.py; never used by the registered commands): run the harness
+        # against a scratch copy of the repository with private work / evidence directories, and
+        # reuse the Coq development and driver as already built and checked in /verif
+        global HARNESS, WORK, EVID, REPLAYS
+        outd = os.environ["VERIF_ALT_OUT"]
+        h2 = os.path.join(outd, "harness")
+        if os.path.exists(h2):
+            shutil.rmtree(h2)
+        shutil.copytree(HARNESS, h2)
+        gm = open(os.path.join(h2, "go.mod")).read().replace("=> /repo", "=> " + alt)
+        open(os.path.join(h2, "go.mod"), "w").write(gm)
+        HARNESS, WORK, EVID = h2, os.path.join(outd, "work"), os.path.join(outd, "evidence")
+        REPLAYS = os.path.join(WORK, "replays")
     violations = []      # (kind, message, replay dict)
     known_lines = []
     cov = {}
     try:
-        build_coq()
-        if os.environ.get("VERIF_DEV_NO_PROOFS") and not os.path.exists(os.path.join(COQ, "Props", pid + ".v")):
+        if not alt:
+            build_coq()
+        if alt:
+            pr = dict(theorems=[], discharged=0, axioms=[], ok=True, log="", secs=0.0)
+        elif os.environ.get("VERIF_DEV_NO_PROOFS") and not os.path.exists(os.path.join(COQ, "Props", pid + ".v")):
             # development aid only (never used by the registered commands)
             pr = dict(theorems=[], discharged=0, axioms=[], ok=True, log="", secs=0.0)
         else:
             pr = check_props(pid)
         chk = run_coqchk(pid) if (tier == "thorough" and pr["ok"] and pr["theorems"]) else None
-        build_driver()
+        if not alt:
+            build_driver()
         rc, hout = run_harness(pid, tier, seed, race=rule.get("race", False) and True)
         if rc != 0:
             if rule.get("race") and "DATA RACE" in hout:
